@@ -128,6 +128,8 @@ def parse_terse(out):
             d = m.group(1).strip().strip('"')
             if not any(f["desc"] == d for f in r["failed"]):
                 r["failed"].append(dict(desc=d, file=None, line=None, fn=None))
+        if "encountered no panics, but at least one was expected" in text:
+            r["failed"].append(dict(desc="the documented panic did not occur (should_panic harness ran to completion)", file=None, line=None, fn=None))
         m = re.search(r"VERIFICATION:- (SUCCESSFUL|FAILED)", text)
         if m:
             r["status"] = m.group(1)
